@@ -78,3 +78,85 @@ Theorem C03_nonvacuous :
   exists t, spec_program sstate s_exists s_cmd_run (fun _ => false) ex_prog ex_world
               (FErr (RExitCode 3) (Meta (Some 3) None)) t /\ ex_pcs t = [0; 1; 2; 1; 2]%nat.
 Proof. exact ex_spec_run. Qed.
+
+(* =================================================================================================
+   THE RUNNER WITH ARGUMENT BINDING (appended).  RunnerBind.v is Runner.v with the one thing Runner.v
+   abstracts: run_instruction hands the command `bind_command_arguments(variables, instruction)`
+   (Expansion.bind_args against the variables at that moment); the on_error command still gets
+   (message, line, source) as they are.  The abstract machine RunnerBindSpec.spec_step_b is
+   RunnerSpec.spec_step rule by rule with [invokes] replaced by [invokes_b] (bound arguments).
+   The statements hold for every binder [bnd]; [bind_vars] is the real one, the identity gives back
+   the theorems above.
+   ================================================================================================= *)
+Require Import DS.Expansion DS.ExpansionSpec DS.RunnerBind DS.RunnerBindSpec DS.RunnerBindProof DS.RunnerBindScripted.
+Require Import DS.Runner.
+
+Section C03_bound.
+Variable cstate : Type.
+Variable exists_cmd : cstate -> str -> bool.
+Variable cmd : str -> inv -> world cstate -> result * world cstate.
+Variable ext : nat -> bool.
+
+(* one iteration of run_instructions (with binding) is exactly one move of the abstract machine *)
+Theorem C03_step_bound : forall bnd prog c x,
+  step_b cstate exists_cmd cmd ext bnd prog (label_table prog) c = x <-> spec_step_b cstate exists_cmd cmd ext bnd prog c x.
+Proof. exact (RunnerBindProof.step_iff cstate exists_cmd cmd ext). Qed.
+
+(* C03_refines for the runner with real binding: every finished run is a run of the abstract
+   machine in which every script instruction invokes its command with the arguments bound against
+   the variables of that moment *)
+Theorem C03_refines_bound : forall prog w fuel f t,
+  run_bound cstate exists_cmd cmd ext fuel prog w = Done f t ->
+  spec_program_b cstate exists_cmd cmd ext bind_vars prog w f t.
+Proof. exact (run_b_refines cstate exists_cmd cmd ext bind_vars). Qed.
+
+Theorem C03_complete_bound : forall prog w f t,
+  spec_program_b cstate exists_cmd cmd ext bind_vars prog w f t ->
+  exists fuel, run_bound cstate exists_cmd cmd ext fuel prog w = Done f t.
+Proof. exact (run_b_complete cstate exists_cmd cmd ext bind_vars). Qed.
+
+Theorem C03_spec_det_bound : forall prog w f1 t1 f2 t2,
+  spec_program_b cstate exists_cmd cmd ext bind_vars prog w f1 t1 ->
+  spec_program_b cstate exists_cmd cmd ext bind_vars prog w f2 t2 -> f1 = f2 /\ t1 = t2.
+Proof. exact (spec_program_b_det cstate exists_cmd cmd ext bind_vars). Qed.
+
+(* the generalisation is conservative: with the identity binder the model and the abstract machine
+   are Runner.v and RunnerSpec.v *)
+Theorem C03_bound_conservative :
+  (forall fuel p w, run_b cstate exists_cmd cmd ext idb fuel p w = run cstate exists_cmd cmd ext fuel p w) /\
+  (forall prog c x, spec_step_b cstate exists_cmd cmd ext idb prog c x <-> spec_step cstate exists_cmd cmd ext prog c x).
+Proof. exact (conj (run_b_id cstate exists_cmd cmd ext) (spec_step_b_id cstate exists_cmd cmd ext)). Qed.
+
+(* SIMULATION by Runner.v: run over the command function [bound_cmd] (binds the arguments of every
+   invocation except the one shaped like the handler's: on_error, three arguments, no output
+   variable, line 0), Runner.v agrees with the binding runner on success / failure with
+   meta-information, final context, executed lines and invoked commands (name, output variable,
+   line) — on everything but the LOGGED arguments (Runner.v logs the written ones) — for every
+   program whose instruction 0 is not itself a bare `on_error a b c`.  This is how theorems proved
+   about `run` for every command function (C10, C13, C14b) carry over to the binding runner. *)
+Theorem C03_bound_sim : forall bnd prog w fuel,
+  first_is_handler_call prog = false ->
+  outcome_shape cstate (run_b cstate exists_cmd cmd ext bnd fuel prog w)
+  = outcome_shape cstate (run cstate exists_cmd (bound_cmd cstate cmd bnd) ext fuel prog w).
+Proof. exact (run_b_sim cstate exists_cmd cmd ext). Qed.
+
+(* C03 + C02: for arguments written as well-formed templates outside C02's known-finding classes the
+   invoked command receives the denotations (values inserted verbatim, \${x} literal, %{x} spread) *)
+Theorem C03_bound_receives : forall w i s c line (args : list warg),
+  i_type i = IScript s -> s_cmd s = Some c -> exists_cmd (cst w) c = true ->
+  s_args s = map render_arg args -> forallb wf_arg args = true ->
+  existsb (known_arg (env_of (vars w))) args = false ->
+  ri_calls (run_instruction_b cstate exists_cmd cmd bind_vars w i line)
+  = [Call c (Inv (denote_args (env_of (vars w)) args) (s_out s) line)].
+Proof. exact (bound_receives cstate exists_cmd cmd). Qed.
+End C03_bound.
+
+(* non-vacuity: `x = c0` (c0 answers "v w"); `c1 a${x}b \${x} %{x} ${nope}` — c1 receives
+   ["av wb"; "${x}"; "v"; "w"; ""], fails with the message "${x}", and on_error receives that message
+   unexpanded together with the source line 2 *)
+Theorem C03_bound_nonvacuous :
+  xb_calls (sb_run 5 None xb_prog [] xb_cmds) =
+  [ Call xb_c0 (Inv [] (Some xb_x) 0);
+    Call xb_c1 (Inv [[97; 118; 32; 119; 98]%N; xb_var; xb_v; xb_w; []] None 1);
+    Call on_error_name (Inv [xb_var; [50]%N; []] None 0) ].
+Proof. vm_compute. reflexivity. Qed.
